@@ -456,3 +456,38 @@ def _collect_terms(items, used):
                 _collect_terms(a['items'], used)
         elif it[0] == 'q':
             _collect_terms([it[1]], used)
+
+
+def prune(G):
+    """drop rules (and named terminals) that cannot be reached from the start symbols, so that the
+    set of terminals the lexer knows does not depend on how lark treats unused definitions"""
+    by = {r['name']: r for r in G['rules']}
+    seen, terms = set(), set(G.get('ignore', []))
+    st = list(G.get('start') or ['start'])
+
+    def walk(items):
+        for it in items:
+            k = it[0]
+            if k == 'r':
+                st.append(it[1])
+            elif k == 't':
+                terms.add(it[1])
+            elif k in ('g', 'm'):
+                for a in it[1]:
+                    walk(a['items'])
+            elif k == 'q':
+                walk([it[1]])
+            elif k == 'c':
+                st.append(it[1])
+                walk(it[2])
+    while st:
+        n = st.pop()
+        if n in seen or n not in by:
+            continue
+        seen.add(n)
+        for a in by[n]['alts']:
+            walk(a['items'])
+    G = dict(G)
+    G['rules'] = [r for r in G['rules'] if r['name'] in seen]
+    G['terms'] = [t for t in G.get('terms', []) if t['name'] in terms]
+    return G
